@@ -444,6 +444,7 @@ fn run_http(sc: &Value) -> Value {
 fn run_threads(sc: &Value) -> Value {
     use std::sync::atomic::{AtomicBool, AtomicU64, Ordering};
     let iters = sc["iters"].as_u64().unwrap_or(2000);
+    let writers = sc["writers"].as_u64().unwrap_or(2);
     let dir = base_dir().join(format!("f11-{}", std::process::id()));
     let _ = std::fs::remove_dir_all(&dir);
     std::fs::create_dir_all(&dir).unwrap();
@@ -497,8 +498,11 @@ fn run_threads(sc: &Value) -> Value {
         let prov = st.get_provision_shared_state();
         let ags = st.get_agent_status_shared_state();
         prov.set_event_log_threads_initialized().await.unwrap();
+        let _ = ags
+            .set_module_status_message(msg_b.clone(), AgentStatusModule::KeyKeeper)
+            .await;
         let mut hs = Vec::new();
-        for _w in 0..2 {
+        for _w in 0..writers {
             let (prov, ags, dir) = (prov.clone(), ags.clone(), dir.clone());
             hs.push(tokio::spawn(async move {
                 for _ in 0..iters {
@@ -529,7 +533,7 @@ fn run_threads(sc: &Value) -> Value {
     let _ = reader.join();
     let ex = example.lock().unwrap().clone();
     let _ = std::fs::remove_dir_all(&dir);
-    json!({"iters": iters, "reads": reads.load(Ordering::Relaxed),
+    json!({"iters": iters, "writers": writers, "reads": reads.load(Ordering::Relaxed),
            "anomalies": anomalies.load(Ordering::Relaxed), "example": ex})
 }
 
